@@ -552,13 +552,24 @@ func checkDecodeTable(c *Ctx) {
 		key := "DecodeMessage:body-sliced-after-type-check"
 		cs := callsIn(dec, pkgProto+".msgTypeFromBytes")
 		var slices []ssa.Instruction
-		allInstrs(dec, func(in ssa.Instruction) {
-			if sl, ok := in.(*ssa.Slice); ok && sl.X == ssa.Value(dec.Params[0]) {
-				slices = append(slices, in)
+		allInstrsNew(dec, func(in ssa.Instruction) {
+			if sl, ok := in.(*ssa.Slice); ok {
+				isData := false
+				valueOrigins(in.Parent(), sl.X, func(r ssa.Value) {
+					if r == ssa.Value(dec.Params[0]) {
+						isData = true
+					}
+				})
+				if isData {
+					slices = append(slices, in)
+				}
 			}
 		})
 		if len(cs) == 1 && len(slices) > 0 {
-			if u, _ := unreachableWhenCut(dec, errorEdgeCut(dec, cs[0], false), slices); u {
+			// the prefix test and the slicing may sit together in a phase helper the reference tree
+			// does not have: the rule is evaluated in the function that holds them
+			host := hostFn(dec, cs[0])
+			if u, _ := unreachableWhenCut(host, errorEdgeCut(host, cs[0], false), slices); u {
 				c.OK(rule, key, c.Pos(cs[0].Pos()), "data[2:] only after msgTypeFromBytes succeeded")
 			} else {
 				c.Bad(rule, key, c.Pos(slices[0].Pos()), "data[2:] can be evaluated although the frame is shorter than the type prefix")
@@ -647,7 +658,7 @@ func checkNilJSON(c *Ctx) {
 		if pkgOf(fn) != pkgProto {
 			continue
 		}
-		allInstrs(fn, func(in ssa.Instruction) {
+		allInstrsShallow(fn, func(in ssa.Instruction) {
 			ld, ok := in.(*ssa.UnOp)
 			if !ok || ld.Op != token.MUL {
 				return
@@ -906,7 +917,7 @@ func checkSingleWriter(c *Ctx, rule string) {
 			continue
 		}
 		fn := fn
-		allInstrs(fn, func(in ssa.Instruction) {
+		allInstrsShallow(fn, func(in ssa.Instruction) {
 			if isRawWrite(in) {
 				writers[outermost(fn)] = true
 			}
@@ -927,7 +938,7 @@ func checkSingleWriter(c *Ctx, rule string) {
 			continue
 		}
 		fn := fn
-		allInstrs(fn, func(in ssa.Instruction) {
+		allInstrsShallow(fn, func(in ssa.Instruction) {
 			if ci, ok := in.(ssa.CallInstruction); ok {
 				if h := ci.Common().StaticCallee(); h != nil && pkgOf(h) == pkgConn {
 					callers[outermost(h)] = append(callers[outermost(h)], outermost(fn))
@@ -1003,7 +1014,7 @@ func checkRoutineOwnedState(c *Ctx, rule string) {
 		if pkgOf(fn) != pkgConn {
 			continue
 		}
-		allInstrs(fn, func(in ssa.Instruction) {
+		allInstrsShallow(fn, func(in ssa.Instruction) {
 			if g, ok := in.(*ssa.Go); ok {
 				if h := g.Call.StaticCallee(); h != nil && pkgOf(h) == pkgConn {
 					roots[h] = true
